@@ -188,7 +188,9 @@ def run_populations(ctx):
                 "close, double flush, abandoned writers), (c) every public operation against 20 hostile on-disk states "
                 "(bucket/content path is a directory, dangling symlink, symlink loop, empty, NUL-only, 1 MiB line, "
                 "100k-deep JSON; index-v5/content-v2/tmp/cache root is a regular file; stray files; non-UTF-8 file "
-                "names), (d) hostile keys incl. 64 KiB and NUL/control characters through every operation. Oracle: "
+                "names), (d) hostile keys incl. 64 KiB and NUL/control characters through every operation, (e) the linker option "
+                "space (link_to through every entry point, declared sizes on both sides of the target's up to 2^64-1, "
+                "partial reads, read_to_end, commit / drop). Oracle: "
                 "no {panic}, no background-thread panic, no process death, no hang (>=10 s CPU or 3 reproducible "
                 "stalls). distinct = (population, op, mode, state/key class)")
     ctx.assumptions = ["integrity arguments are well-formed", "FIFOs and device nodes are excluded (opening one blocks any program)"]
@@ -308,6 +310,44 @@ def run_populations(ctx):
             r = ctx.call(mm, q, timeout=30)
             judge(ctx, f"hostile key #{ki} (len {len(key)})", mm, q, r, "hostile-key")
             ctx.case(distinct_key=("key", ki, q["op"], mm))
+    # ---------------- (e) linker option space (link_to): declared sizes on both sides of the target's, partial reads,
+    # read_to_end, a target that shrinks or vanishes between open and commit
+    base = ctx.new_dir("linkers")
+    nl = 240 if ctx.quick else 3000
+    for i in range(nl):
+        mode = modes[i % len(modes)]
+        cache = os.path.join(base, f"c{i % 7}")
+        ln = rng.choice([0, 1, 11, 5000, 16384, 20000])
+        tpath = os.path.join(base, f"target-{i}.bin")
+        with open(tpath, "wb") as f:
+            f.write(gen.data(rng, ln))
+        via = rng.choice(["fn", "open", "opts", "opts", "opts"])
+        req = {"op": "linker", "cache": cache, "target": tpath, "via": via}
+        if rng.random() < 0.7:
+            req["key"] = f"l{i % 5}"
+        dsz = None
+        if via == "opts":
+            dsz = rng.choice([None, ln, ln + 1, ln + 20, max(0, ln - 1), 0, 2 * ln + 1, 2 ** 40, 2 ** 64 - 1])
+            opts = {}
+            if dsz is not None:
+                opts["size"] = dsz
+            if rng.random() < 0.3:
+                opts["sri"] = ref.sri("sha256", b"something else")
+            req["opts"] = opts
+        if via != "fn":
+            req["reads"] = rng.choice([[], [0], [1], [ln], [ln + 5], [3, 0, 7]])
+            if rng.random() < 0.3:
+                req["then_to_end"] = True
+            req["final"] = rng.choice(["commit", "commit", "commit", "drop"])
+        r = ctx.call(mode, req, timeout=20)
+        cls = ("linker", mode, via, "undeclared" if dsz is None else "exact" if dsz == ln else "less" if dsz < ln else "more",
+               "len0" if ln == 0 else "data", bool(req.get("then_to_end")), req.get("final", "commit"))
+        judge(ctx, f"linker via={via} target={ln} bytes declared={dsz} reads={req.get('reads')} final={req.get('final')}", mode, req, r,
+              "linker-options")
+        ctx.case(distinct_key=cls, sample={"population": "linker options", "mode": mode, "via": via, "target_len": ln,
+                                           "declared": dsz, "result": ev.variant(r)} if i % 60 == 0 else None)
+        os.unlink(tpath)
+    ctx.rm(base)
     ctx.extra["hostile_states"] = states
     ctx.extra["modes"] = modes
     if not ctx.quick:
